@@ -975,4 +975,35 @@ theorem harmonised_totals {T : Table} {p : MProf} {o : MProfOut} (h : Harmonised
     _ = tot * ↑S.den * (r.num * fn.num * ↑fo.den) := by ring
     _ = tot * ↑S.den * (fo.num * (↑r.den * ↑fn.den)) := by rw [hr]
     _ = tot * fo.num * (↑S.den * ↑fn.den) * ↑r.den := by ring
+
+/-- truncation toward zero loses less than one unit and never overshoots -/
+theorem scaleByRatio_bounds (v : Int) (r : Q) (hd : 0 < r.den) :
+    (v * r.num - scaleByRatio v r * r.den).natAbs < r.den ∧
+    (0 ≤ v * r.num → 0 ≤ scaleByRatio v r ∧ scaleByRatio v r * r.den ≤ v * r.num) ∧
+    (v * r.num ≤ 0 → scaleByRatio v r ≤ 0 ∧ v * r.num ≤ scaleByRatio v r * r.den) := by
+  have hd0 : r.den ≠ 0 := by omega
+  unfold scaleByRatio
+  simp only [hd0, if_false]
+  generalize v * r.num = a
+  have hdm := Nat.div_add_mod a.natAbs r.den
+  have hml := Nat.mod_lt a.natAbs hd
+  generalize hq : a.natAbs / r.den = q at hdm
+  generalize a.natAbs % r.den = m at hdm hml
+  have hcast : ((r.den * q + m : Nat) : Int) = (a.natAbs : Int) := by exact_mod_cast hdm
+  push_cast at hcast
+  rcases Int.lt_trichotomy a 0 with hneg | hz | hpos
+  · rw [Int.sign_eq_neg_one_of_neg hneg]
+    have hab : (a.natAbs : Int) = -a := by omega
+    have e : (r.den : Int) * q = (q : Int) * r.den := Int.mul_comm _ _
+    refine ⟨?_, ?_, ?_⟩ <;> (try intro _) <;> (try constructor) <;> simp only [Int.neg_mul, Int.one_mul] <;> omega
+  · subst hz
+    have : q = 0 := by
+      have : (0 : Int).natAbs = 0 := rfl
+      rw [this] at hq; rw [← hq]; exact Nat.zero_div _
+    subst this
+    simp; omega
+  · rw [Int.sign_eq_one_of_pos hpos]
+    have hab : (a.natAbs : Int) = a := by omega
+    have e : (r.den : Int) * q = (q : Int) * r.den := Int.mul_comm _ _
+    refine ⟨?_, ?_, ?_⟩ <;> (try intro _) <;> (try constructor) <;> simp only [Int.one_mul] <;> omega
 end PV.Measure
